@@ -102,16 +102,16 @@ theorem parseSizes_body (z : Sizes) (hc : ∀ c ∈ z.csizes, c < U32) (hn : z.c
 def tblOf (P : Params) (p : Bytes) (cs : List Bytes) : Sizes :=
   ⟨cs.map List.length, p.length - (cs.length - 1) * P.block⟩
 
-theorem count_spec (P : Params) (L n : Nat) (hL : 0 < L) (hn : n = (L + P.block - 1) / P.block) :
-    0 < n ∧ (n - 1) * P.block < L ∧ L ≤ n * P.block := by
+theorem count_spec (P : Params) (L n : Nat) (hn : n = (L + P.block - 1) / P.block) :
+    (n - 1) * P.block ≤ L ∧ L ≤ n * P.block := by
   have hb := P.hblock
   have h1 : n * P.block ≤ L + P.block - 1 := by rw [hn]; exact Nat.div_mul_le_self _ _
   have h2 : L + P.block - 1 < n * P.block + P.block := by rw [hn]; exact Nat.lt_div_mul_add hb
-  have h0 : 0 < n := by
-    apply Nat.pos_of_ne_zero; intro h; subst h; simp at h2; omega
-  obtain ⟨m, rfl⟩ : ∃ m, n = m + 1 := ⟨n - 1, by omega⟩
-  simp only [Nat.add_mul, Nat.one_mul, Nat.add_sub_cancel] at *
-  omega
+  by_cases h0 : n = 0
+  · subst h0; simp only [Nat.zero_mul, Nat.zero_add, Nat.zero_sub] at *; omega
+  · obtain ⟨m, rfl⟩ : ∃ m, n = m + 1 := ⟨n - 1, by omega⟩
+    simp only [Nat.add_mul, Nat.one_mul, Nat.add_sub_cancel] at *
+    omega
 
 theorem lt_count (P : Params) (L n k : Nat) (hL : L ≤ n * P.block) (hk : k * P.block < L) : k < n :=
   Nat.lt_of_mul_lt_mul_right (Nat.lt_of_lt_of_le hk hL)
@@ -122,21 +122,21 @@ theorem blockOf_length (P : Params) (p : Bytes) (k : Nat) :
 
 section Table
 variable (P : Params) (K : Codec) (p : Bytes) (cs : List Bytes) (e : Bytes)
-  (hne : p ≠ []) (hc : IsCompressed P K p cs e)
-include hne hc
+  (hc : IsCompressed P K p cs e)
+include hc
 
-theorem IsCompressed.spec : 0 < cs.length ∧ (cs.length - 1) * P.block < p.length ∧
+theorem IsCompressed.spec : (cs.length - 1) * P.block ≤ p.length ∧
     p.length ≤ cs.length * P.block :=
-  count_spec P p.length cs.length (List.length_pos_iff.mpr hne) hc.count
+  count_spec P p.length cs.length hc.count
 
 theorem IsCompressed.maxPos : (tblOf P p cs).maxPos P = p.length := by
-  obtain ⟨h0, h1, h2⟩ := IsCompressed.spec P K p cs e hne hc
+  obtain ⟨h1, h2⟩ := IsCompressed.spec P K p cs e hc
   simp only [Sizes.maxPos, tblOf, List.length_map]
   omega
 
 theorem IsCompressed.usizeAt (k : Nat) (hk : k * P.block < p.length) :
     (tblOf P p cs).usizeAt P k = (blockOf P p k).length := by
-  obtain ⟨h0, h1, h2⟩ := IsCompressed.spec P K p cs e hne hc
+  obtain ⟨h1, h2⟩ := IsCompressed.spec P K p cs e hc
   have hkn := lt_count P _ _ k h2 hk
   rw [blockOf_length]
   simp only [Sizes.usizeAt, tblOf, List.length_map]
@@ -164,7 +164,7 @@ structure CompFits (P : Params) (cs : List Bytes) : Prop where
 section Reader
 variable {ι : Type} [Stream ι] (P : Params) (K : Codec)
   {InvI : ι → Prop} {absI : ι → Nat} (p : Bytes) (cs : List Bytes) (e : Bytes)
-  (hne : p ≠ []) (hc : IsCompressed P K p cs e) (hfit : CompFits P cs)
+  (hc : IsCompressed P K p cs e) (hfit : CompFits P cs)
   (hI : IsCursor InvI absI e)
 
 omit [Stream ι] in
@@ -172,9 +172,9 @@ include hc in
 theorem IsCompressed.layout' : e = cs.flatten ++ (sizesBody (tblOf P p cs) ++
     le32 (sizesBody (tblOf P p cs)).length) := hc.layout
 
-include hne hc hfit in
+include hc hfit in
 theorem IsCompressed.parse : parseSizes (sizesBody (tblOf P p cs)) = .ok (tblOf P p cs) := by
-  obtain ⟨h0, h1, h2⟩ := IsCompressed.spec P K p cs e hne hc
+  obtain ⟨h1, h2⟩ := IsCompressed.spec P K p cs e hc
   apply parseSizes_body
   · intro c hcm
     simp only [tblOf, List.mem_map] at hcm
@@ -184,19 +184,21 @@ theorem IsCompressed.parse : parseSizes (sizesBody (tblOf P p cs)) = .ok (tblOf 
     have e32 : U32 = 4294967296 := by decide
     have e64 : U64 = 18446744073709551616 := by decide
     simp only [tblOf, List.length_map]; omega
-  · have e1 : cs.length * P.block = (cs.length - 1) * P.block + P.block := by
-      rw [← Nat.succ_mul]; congr 1; omega
-    have := hfit.block
-    simp only [tblOf]; omega
+  · have := hfit.block
+    simp only [tblOf]
+    by_cases hn0 : cs.length = 0
+    · rw [hn0, Nat.zero_mul] at h2; omega
+    · have e1 : cs.length * P.block = (cs.length - 1) * P.block + P.block := by
+        rw [← Nat.succ_mul]; congr 1; omega
+      omega
 
 omit hI in
-/-- `initialize` over a cursor on `pre ++ encSizes z`: the table is found and parsed; an empty table
-    is refused, otherwise the reader starts at position 0 in state `ready` -/
+/-- `initialize` over a cursor on `pre ++ encSizes z`: the table is found and parsed (an empty
+    table too: it describes the empty stream); the reader starts at position 0 in state `ready` -/
 theorem CompR.init_core (pre : Bytes) (z : Sizes) (hI : IsCursor InvI absI (pre ++ encSizes z))
     (hparse : parseSizes (sizesBody z) = .ok z) (hbody32 : (sizesBody z).length < U32)
     (inner : ι) (hin : InvI inner) :
-    ∃ i, InvI i ∧ CompR.init inner =
-      if z.csizes = [] then .error .deser else .ok ⟨i, some z, 0, .ready⟩ := by
+    ∃ i, InvI i ∧ CompR.init inner = .ok ⟨i, some z, 0, .ready⟩ := by
   have hlay : pre ++ encSizes z = pre ++ (sizesBody z ++ le32 (sizesBody z).length) := rfl
   generalize sizesBody z = body at *
   generalize pre ++ encSizes z = e at *
@@ -226,51 +228,29 @@ theorem CompR.init_core (pre : Bytes) (z : Sizes) (hI : IsCursor InvI absI (pre 
   simp only [hs1, hr2, le32_length, Nat.lt_irrefl, if_false, unle_le32 _ hbody32, hlt, hs3, hr4,
     hparse]
 
-include hne hc hfit hI in
-/-- `initialize` on a well-formed stream of a non-empty plaintext -/
+include hc hfit hI in
+/-- `initialize` on a well-formed stream (of any plaintext, the empty one included) -/
 theorem CompR.init_eq (inner : ι) (hin : InvI inner) :
     ∃ i, CompR.init inner = .ok ⟨i, some (tblOf P p cs), 0, .ready⟩ ∧ InvI i := by
-  obtain ⟨h0, h1, h2⟩ := IsCompressed.spec P K p cs e hne hc
-  have hparse := IsCompressed.parse P K p cs e hne hc hfit
+  obtain ⟨h1, h2⟩ := IsCompressed.spec P K p cs e hc
+  have hparse := IsCompressed.parse P K p cs e hc hfit
   have hbody32 : (sizesBody (tblOf P p cs)).length < U32 := by
     have := hfit.tbl
     rw [sizesBody_length]; simp only [tblOf, List.length_map]; omega
-  have hne' : ¬ ((tblOf P p cs).csizes = []) := by
-    simp only [tblOf, List.map_eq_nil_iff]
-    intro h; rw [h] at h0; simp at h0
   obtain ⟨i, hi, hinit⟩ := CompR.init_core (absI := absI) cs.flatten (tblOf P p cs)
     (by have := hc.layout; unfold tblOf; rw [← this]; exact hI) hparse hbody32 inner hin
-  rw [if_neg hne'] at hinit
   exact ⟨i, hinit, hi⟩
 
 include hc hI in
-/-- the empty plaintext: the writer emits a table without any block, which `initialize` refuses -/
-theorem CompR.init_empty (hp : p = []) (inner : ι) (hin : InvI inner) :
-    CompR.init inner = .error .deser := by
-  subst hp
-  have hcs : cs = [] := by
-    have := hc.count
-    simp only [List.length_nil, Nat.zero_add] at this
-    rw [Nat.div_eq_of_lt (by have := P.hblock; omega)] at this
-    exact List.eq_nil_of_length_eq_zero this
-  subst hcs
-  have hlay := hc.layout
-  simp only [List.flatten_nil, List.map_nil, List.length_nil, Nat.zero_sub] at hlay
-  obtain ⟨i, hi, hinit⟩ := CompR.init_core (absI := absI) [] ⟨[], 0⟩
-    (by subst hlay; exact hI)
-    (parseSizes_body _ (by simp) (by decide) (by decide)) (by decide) inner hin
-  simpa using hinit
-
-include hne hc hI in
 /-- entering block `k` (`k * block < |p|`): the inner stream is moved to the block, its compressed
     bytes are read and decoded to `blockOf P p k` -/
 theorem CompR.enter_ok (r : CompR ι) (hin : InvI r.inner) (k : Nat) (hk : k * P.block < p.length) :
     ∃ i, CompR.enter P K r (tblOf P p cs) (k * P.block) =
       .ok (i, (blockOf P p k).length, blockOf P p k) ∧ InvI i := by
-  obtain ⟨h0, h1, h2⟩ := IsCompressed.spec P K p cs e hne hc
+  obtain ⟨h1, h2⟩ := IsCompressed.spec P K p cs e hc
   have hkn := lt_count P _ _ k h2 hk
-  have hmax := IsCompressed.maxPos P K p cs e hne hc
-  have hus := IsCompressed.usizeAt P K p cs e hne hc k hk
+  have hmax := IsCompressed.maxPos P K p cs e hc
+  have hus := IsCompressed.usizeAt P K p cs e hc k hk
   have hstart : (tblOf P p cs).startOf k = ((cs.map List.length).take k).sum := rfl
   have hle : (tblOf P p cs).startOf k ≤ e.length := by
     have := sum_take_le_flatten cs k
@@ -348,7 +328,7 @@ section Reader3
 variable {ι : Type} [Stream ι] (P : Params) (K : Codec) (rd : Nat → Nat)
   (hrd : ∀ m, 0 < m → 0 < rd m ∧ rd m ≤ m) (hrd0 : rd 0 = 0)
   {InvI : ι → Prop} {absI : ι → Nat} (p : Bytes) (cs : List Bytes) (e : Bytes)
-  (hne : p ≠ []) (hc : IsCompressed P K p cs e) (hI : IsCursor InvI absI e)
+  (hc : IsCompressed P K p cs e) (hI : IsCursor InvI absI e)
 
 /-- what a `read` of at most `n` bytes at position `upos` must answer -/
 def CompR.ReadPost (InvI : ι → Prop) (absI : ι → Nat) (upos n : Nat)
@@ -357,7 +337,7 @@ def CompR.ReadPost (InvI : ι → Prop) (absI : ι → Nat) (upos n : Nat)
     out = (p.drop upos).take out.length ∧ out.length ≤ n ∧
     (0 < n → upos < p.length → 0 < out.length) ∧ res.1.upos = upos + out.length
 
-include hrd hrd0 hne hc in
+include hrd hrd0 hc in
 /-- inside a block with something left: the decompressor is read -/
 theorem CompR.readFull_data (fuel : Nat) (r : CompR ι) (n : Nat)
     (hs : r.sizes = some (tblOf P p cs)) (hin : InvI r.inner) (hlt : r.upos < p.length)
@@ -365,7 +345,7 @@ theorem CompR.readFull_data (fuel : Nat) (r : CompR ι) (n : Nat)
     (hok : CRSt.OK P p r.upos (.inData read usize plain)) (hru : read < usize) :
     CompR.ReadPost P K rd p cs e InvI absI r.upos n (CompR.readFull P K rd (fuel + 1) r n) := by
   obtain ⟨k, hu, hle, rfl, rfl⟩ := hok
-  have hmax := IsCompressed.maxPos P K p cs e hne hc
+  have hmax := IsCompressed.maxPos P K p cs e hc
   have h1 : ¬ ¬ (r.upos < (tblOf P p cs).maxPos P) := by rw [hmax]; omega
   have h2 : ¬ ((blockOf P p k).length < read) := by omega
   have h3 : ¬ (read = (blockOf P p k).length) := by omega
@@ -381,24 +361,24 @@ theorem CompR.readFull_data (fuel : Nat) (r : CompR ι) (n : Nat)
   · show List.drop _ (List.drop read (blockOf P p k)) = _
     rw [List.drop_drop]
 
-include hrd hrd0 hne hc hI in
+include hrd hrd0 hc hI in
 /-- between blocks: the block at the position is entered, then read -/
 theorem CompR.readFull_ready (fuel : Nat) (r : CompR ι) (n : Nat)
     (hs : r.sizes = some (tblOf P p cs)) (hin : InvI r.inner) (hlt : r.upos < p.length)
     (hst : r.st = .ready) (hok : r.upos % P.block = 0) :
     CompR.ReadPost P K rd p cs e InvI absI r.upos n (CompR.readFull P K rd (fuel + 2) r n) := by
-  have hmax := IsCompressed.maxPos P K p cs e hne hc
+  have hmax := IsCompressed.maxPos P K p cs e hc
   have h1 : ¬ ¬ (r.upos < (tblOf P p cs).maxPos P) := by rw [hmax]; omega
   have hk : r.upos = r.upos / P.block * P.block := by
     have := Nat.div_add_mod r.upos P.block
     rw [hok, Nat.mul_comm] at this; omega
   generalize r.upos / P.block = k at hk
-  obtain ⟨i, he, hi⟩ := CompR.enter_ok P K p cs e hne hc hI r hin k (by omega)
+  obtain ⟨i, he, hi⟩ := CompR.enter_ok P K p cs e hc hI r hin k (by omega)
   rw [← hk] at he
   have hpos : 0 < (blockOf P p k).length := by
     have hb := P.hblock
     rw [blockOf_length]; omega
-  have := CompR.readFull_data P K rd hrd hrd0 p cs e hne hc (InvI := InvI) (absI := absI) fuel
+  have := CompR.readFull_data P K rd hrd hrd0 p cs e hc (InvI := InvI) (absI := absI) fuel
     { r with inner := i, st := .inData 0 (blockOf P p k).length (blockOf P p k) } n hs hi hlt
     0 _ _ rfl ⟨k, by simpa using hk, Nat.zero_le _, rfl, rfl⟩ hpos
   unfold CompR.readFull
@@ -406,7 +386,7 @@ theorem CompR.readFull_ready (fuel : Nat) (r : CompR ι) (n : Nat)
   simp only [hs] at this
   exact this
 
-include hrd hrd0 hne hc hI in
+include hrd hrd0 hc hI in
 /-- at the end of a block which is not the last one: back to `ready`, next block -/
 theorem CompR.readFull_full (r : CompR ι) (n : Nat)
     (hs : r.sizes = some (tblOf P p cs)) (hin : InvI r.inner) (hlt : r.upos < p.length)
@@ -414,41 +394,41 @@ theorem CompR.readFull_full (r : CompR ι) (n : Nat)
     (hok : CRSt.OK P p r.upos (.inData read usize plain)) (hru : read = usize) :
     CompR.ReadPost P K rd p cs e InvI absI r.upos n (CompR.readFull P K rd 3 r n) := by
   obtain ⟨k, hu, hle, hus, hpl⟩ := hok
-  have hmax := IsCompressed.maxPos P K p cs e hne hc
+  have hmax := IsCompressed.maxPos P K p cs e hc
   have h1 : ¬ ¬ (r.upos < (tblOf P p cs).maxPos P) := by rw [hmax]; omega
   have h2 : ¬ (usize < read) := by omega
   have hbl := blockOf_length P p k
   have hmod : r.upos % P.block = 0 := by
     have : r.upos = (k + 1) * P.block := by rw [Nat.add_mul]; omega
     rw [this]; exact Nat.mul_mod_left _ _
-  have := CompR.readFull_ready P K rd hrd hrd0 p cs e hne hc hI 0 { r with st := .ready } n hs hin
+  have := CompR.readFull_ready P K rd hrd hrd0 p cs e hc hI 0 { r with st := .ready } n hs hin
     hlt rfl hmod
   unfold CompR.readFull
   simp only [hs, hst, if_neg h1, if_neg h2, if_pos hru]
   simp only [hs] at this
   exact this
 
-include hrd hrd0 hne hc hI in
+include hrd hrd0 hc hI in
 /-- every `read` under the invariant -/
 theorem CompR.readFull_ok (r : CompR ι) (n : Nat)
     (h : CompRd.Inv (rd := rd) P K p cs e InvI absI ⟨r⟩) :
     CompR.ReadPost P K rd p cs e InvI absI r.upos n (CompR.readFull P K rd 3 r n) := by
   obtain ⟨hs, hin, hle, hnem, hok⟩ := h
   simp only at hs hin hle hnem hok
-  have hmax := IsCompressed.maxPos P K p cs e hne hc
+  have hmax := IsCompressed.maxPos P K p cs e hc
   by_cases hlt : r.upos < p.length
   · have hok := hok hlt
     cases hst : r.st with
     | empty => exact absurd hst hnem
     | ready =>
       rw [hst] at hok
-      exact CompR.readFull_ready P K rd hrd hrd0 p cs e hne hc hI 1 r n hs hin hlt hst hok
+      exact CompR.readFull_ready P K rd hrd hrd0 p cs e hc hI 1 r n hs hin hlt hst hok
     | inData read usize plain =>
       rw [hst] at hok
       by_cases hru : read = usize
-      · exact CompR.readFull_full P K rd hrd hrd0 p cs e hne hc hI r n hs hin hlt _ _ _ hst hok hru
+      · exact CompR.readFull_full P K rd hrd hrd0 p cs e hc hI r n hs hin hlt _ _ _ hst hok hru
       · obtain ⟨k, hu, hle', hus, hpl⟩ := hok
-        exact CompR.readFull_data P K rd hrd hrd0 p cs e hne hc 2 r n hs hin hlt _ _ _ hst
+        exact CompR.readFull_data P K rd hrd hrd0 p cs e hc 2 r n hs hin hlt _ _ _ hst
           ⟨k, hu, hle', hus, hpl⟩ (by omega)
   · have h1 : ¬ (r.upos < (tblOf P p cs).maxPos P) := by rw [hmax]; exact hlt
     unfold CompR.readFull
@@ -456,14 +436,14 @@ theorem CompR.readFull_ok (r : CompR ι) (n : Nat)
     exact ⟨[], rfl, ⟨hs, hin, hle, hnem, fun h => absurd h hlt⟩, by simp, by simp,
       fun _ h => absurd h hlt, rfl⟩
 
-include hne hc hI in
+include hc hI in
 /-- `seek(Start(pos))` for `pos ≤ |p|`, from any non-failed state whose inner stream is fine -/
 theorem CompR.seekStart_ok (r : CompR ι) (pos : Nat)
     (hs : r.sizes = some (tblOf P p cs)) (hin : InvI r.inner) (hnem : r.st ≠ .empty)
     (hpos : pos ≤ p.length) :
     ∃ r', CompR.seekStart P K r pos = (r', .ok pos) ∧
       CompRd.Inv (rd := rd) P K p cs e InvI absI ⟨r'⟩ ∧ r'.upos = pos := by
-  have hmax := IsCompressed.maxPos P K p cs e hne hc
+  have hmax := IsCompressed.maxPos P K p cs e hc
   have h1 : ¬ (p.length < pos) := by omega
   by_cases hend : pos = p.length
   · refine ⟨{ r with upos := pos }, ?_, ⟨hs, hin, hpos, hnem, fun h => ?_⟩, rfl⟩
@@ -477,14 +457,14 @@ theorem CompR.seekStart_ok (r : CompR ι) (pos : Nat)
     generalize hq : pos / P.block = q at *
     generalize hm : pos % P.block = rm at *
     have hround : pos - rm = q * P.block := by omega
-    obtain ⟨i, he, hi⟩ := CompR.enter_ok P K p cs e hne hc hI r hin q (by omega)
+    obtain ⟨i, he, hi⟩ := CompR.enter_ok P K p cs e hc hI r hin q (by omega)
     have hbl := blockOf_length P p q
     refine ⟨⟨i, r.sizes, pos, .inData rm (blockOf P p q).length ((blockOf P p q).drop rm)⟩, ?_,
       ⟨hs, hi, hpos, by simp, fun _ => ⟨q, by simp only; omega, by omega, rfl, rfl⟩⟩, rfl⟩
     unfold CompR.seekStart
     simp only [hs, hmax, if_neg h1, if_neg hnem, if_neg hend, hm, hround, he]
 
-include hne hc hI in
+include hc hI in
 /-- every seek into `[0, |p|]` succeeds, re-establishes the invariant and lands on the target -/
 theorem CompR.seekFull_ok (r : CompR ι) (w : SeekFrom) (target : Nat)
     (h : CompRd.Inv (rd := rd) P K p cs e InvI absI ⟨r⟩) (ht : target ≤ p.length)
@@ -494,10 +474,10 @@ theorem CompR.seekFull_ok (r : CompR ι) (w : SeekFrom) (target : Nat)
        | .fromEnd d => (target : Int) = p.length + d) :
     ∃ r', CompR.seekFull P K r w = (r', .ok target) ∧
       CompRd.Inv (rd := rd) P K p cs e InvI absI ⟨r'⟩ ∧ r'.upos = target := by
-  have hmax := IsCompressed.maxPos P K p cs e hne hc
+  have hmax := IsCompressed.maxPos P K p cs e hc
   have hs := h.sizes
   simp only at hs
-  obtain ⟨r', hs', hi', ha'⟩ := CompR.seekStart_ok P K rd p cs e hne hc hI r target hs h.inner h.ne ht
+  obtain ⟨r', hs', hi', ha'⟩ := CompR.seekStart_ok P K rd p cs e hc hI r target hs h.inner h.ne ht
   cases w with
   | start n =>
     simp only at hw; subst hw
